@@ -643,6 +643,354 @@ def run(ctx):
             if sorted(got) != sorted(want):
                 ctx.disagree("spec.active-vs-reference", case, sorted(want), sorted(got))
 
+    # ---- EXT-C19: the request text (command line -> wire), see run_wire below
+    run_wire(ctx, env, DEFAULTS, cases, dconv)
+
 
 def replay(ctx, data):
     print("replay: re-run ./check C19 with the same seed; case:", data.get("case", {}).get("label"))
+
+
+# =====================================================================================================================
+# EXT-C19 (wire): from the command line to the text of the request
+#
+# impl  = the same `request_stmt` / `request_stmtend`, and `ofxget.main()` on generated argument vectors, with
+#         `OFXClient.uuid` replaced by a counting descriptor restarted when `request_statements` is entered and
+#         `dtclient` by a fixed instant (what the repo's tests do with mock.patch); the request text is what a dry
+#         run prints, or what `post_request` is handed
+# model = lean/OfxModel/Ofx/OfxgetWire.lean via the driver (`wire.stmt`): `stmtBytes` / `stmtendBytes` with the model of
+#         `Types.DateTime` for `convert_datetime`, `init_client` → `OFXClient.__init__`, `request_statements`, `serialize`
+# compared = both texts read back by ofxtools' own parser (header version / NEWFILEUID, the sign-on, every wrapper with
+#         its transaction id, account, dates and flags); identical texts are counted (`stat`)
+# =====================================================================================================================
+RULE = RULE + ("  Wire pass (command line -> request text): a sample of those ChainMaps with nonewfileuid / unclosedelements / "
+               "empty password / unsupported version / appid-appver-language variations, and argument vectors through "
+               "ofxget.main() (-C/-S/-M/-L/-c/-i repeated, -s/-e/-a valid and invalid, the include switches, --version x "
+               "--unclosedelements, --pretty, --nonewfileuid, bank/broker id, org/fid, clientuid, a generated ofxget.cfg "
+               "section underneath); non-trivial: a request text was produced by the implementation.")
+WIRE_PREFIX = "7E57-C19-"
+WIRE_DTCLIENT = datetime.datetime(2020, 1, 2, 3, 4, 5, 678000, tzinfo=datetime.timezone.utc)
+WIRE_TYPED = "typed-pw"
+
+
+class _CountingUuid:
+    """stands in for the `uuid` classproperty: the n-th access returns prefix + str(n)"""
+
+    def __init__(self, prefix):
+        self.prefix, self.i = prefix, 0
+
+    def __get__(self, obj, objtype=None):
+        v = f"{self.prefix}{self.i}"
+        self.i += 1
+        return v
+
+
+def _enc_dt(d):
+    off = d.utcoffset()
+    us = (off.days * 86400 + off.seconds) * 10 ** 6 + off.microseconds
+    from proto import S
+    return Atom("(dt %d %d %d %d %d %d %d (some (tz %d (some %s))))" % (
+        d.year, d.month, d.day, d.hour, d.minute, d.second, d.microsecond, us, S(d.tzname())))
+
+
+def _client_attrs(c):
+    return [c.url, c.userid, c.clientuid, c.org, c.fid, c.version, c.appid, c.appver, c.language, c.prettyprint,
+            c.close_elements, c.bankid, c.brokerid]
+
+
+def wire_canon(data):
+    """a request text read back by ofxtools' own parser -> everything it says, as plain data"""
+    from ofxtools.Parser import OFXTree
+    t = OFXTree()
+    t.parse(io.BytesIO(data))
+    ofx = t.convert()
+    h = t.header
+    so = ofx.signonmsgsrqv1.sonrq
+    out = {"header": [type(h).__name__, h.version, getattr(h, "newfileuid", None), getattr(h, "oldfileuid", None)],
+           "signon": [cdate(so.dtclient), so.userid, so.userpass, so.language, so.appid, so.appver, so.clientuid,
+                      None if so.fi is None else [so.fi.org, so.fi.fid]],
+           "wrappers": parse_back(data),
+           "trnuids": [[w.trnuid for w in (m or [])]
+                       for m in (ofx.bankmsgsrqv1, ofx.creditcardmsgsrqv1, ofx.invstmtmsgsrqv1)],
+           "msgsets": [type(m).__name__ for m in (ofx.bankmsgsrqv1, ofx.creditcardmsgsrqv1, ofx.invstmtmsgsrqv1)
+                       if m is not None]}
+    return out
+
+
+def run_wire(ctx, env, DEFAULTS, cases, dconv):
+    import getpass as _getpass
+    import sys as _sys
+    og = env.ofxget
+    Real = env.RealClient
+    rng = ctx.rng
+    counter = _CountingUuid(WIRE_PREFIX)
+
+    def patched(rec, resp):
+        """install() plus: counting uuid restarted at request_statements, fixed dtclient"""
+        install(env, rec, resp)
+        Real.uuid = counter
+        inner = Real.request_statements
+
+        def request_statements(self, password, *requests, **kw):
+            counter.i = 0
+            return inner(self, password, *requests, **kw)
+
+        Real.request_statements = request_statements
+
+    saved_dtclient = Real.__dict__["dtclient"]
+    saved_getpass = _getpass.getpass
+    Real.dtclient = lambda self: WIRE_DTCLIENT
+    _getpass.getpass = lambda *a, **k: WIRE_TYPED
+
+    def acct_of(maps0, resp, fresh=None):
+        """what reaches `_merge_acctinfo`: the account infos of the response, or the exception on the way there (the
+        ACCTINFORQ itself may fail: OFXClient.__init__, composition, make_header - C06 matters, external to this layer)"""
+        if maps0.get("all") and resp is not None:
+            if fresh is not None:
+                patched(Rec(), resp)
+                with quiet():
+                    e0 = run_impl_all(og._request_acctinfo, fresh, "pw")
+                if e0[0] == "err":
+                    return [Atom("err"), Atom(e0[1])]
+            e = run_impl_all(lambda: [canon_info(a) for a in og.extract_acctinfos(io.BytesIO(resp))])
+            return [Atom("ok"), [pinfo(i) for i in e[1]]] if e[0] == "ok" else [Atom("err"), Atom(e[1])]
+        return Atom("none")
+
+    def outcome(r, rec, printed, dry):
+        """-> ['ok', text bytes] | ['err', kind]"""
+        if r[0] != "ok":
+            return ["err", r[1]]
+        if dry:
+            if not printed.endswith("\n"):
+                return ["err", "nothing-printed"]
+            return ["ok", printed[:-1].encode("utf-8")]
+        if not rec.sent:
+            return ["err", "nothing-sent"]
+        return ["ok", rec.sent[-1][1]]
+
+    jobs = []       # (case, kind, maps, acct, impl)
+    parts = []      # (case, maps, init_client outcome, get_passwd outcome)
+    try:
+        # ---- W1: ChainMaps (a sample of the cases above, plus format / password variations)
+        pool = [c for c in cases if c["label"] in ("configured", "asof-flags", "all")]
+        rng.shuffle(pool)
+        for c in pool[:ctx.budget(110, 2600)]:
+            cli = dict(c["cli"])
+            r0 = rng.random()
+            if r0 < 0.15:
+                cli["nonewfileuid"] = True
+            if r0 > 0.85 and cli.get("version", 203) < 200:
+                cli["unclosedelements"] = True
+            if rng.random() < 0.08:
+                cli["unclosedelements"] = True          # with version >= 200: ValueError from OFXClient.__init__
+            if not cli.get("dryrun") and rng.random() < 0.3:
+                cli["password"] = ""                    # the terminal is asked
+            if rng.random() < 0.05:
+                cli["version"] = rng.choice([999, 0, 100, 201])     # 999/0/100: no such OFX version (make_header refuses)
+            for k, v in (("appid", "MONEY"), ("appver", "1900"), ("language", "FRA")):
+                if rng.random() < 0.15:
+                    cli[k] = v
+            args = collections.ChainMap(dict(cli), dict(c["user"]), dict(DEFAULTS))
+            rec = Rec()
+            resp = mk_response(env, c["infos"], c["grouped"], c["code"]) if c["infos"] is not None else None
+            acct = acct_of(cli, resp, collections.ChainMap(dict(cli), dict(c["user"]), dict(DEFAULTS)))
+            patched(rec, resp)
+            f = og.request_stmt if c["kind"] == "stmt" else og.request_stmtend
+            with quiet() as out:
+                r = run_impl_all(f, args)
+            maps = [dict(cli), dict(c["user"]), dict(DEFAULTS)]
+            case = {"kind": c["kind"], "label": "wire-" + c["label"], "cli": {k: cv(v) for k, v in cli.items()},
+                    "user": {k: cv(v) for k, v in c["user"].items()}, "infos": c["infos"]}
+            jobs.append((case, c["kind"], maps, acct, outcome(r, rec, out.getvalue(), bool(cli.get("dryrun")))))
+            # init_client / get_passwd on their own (the mapping before discovery)
+            fresh = collections.ChainMap(dict(cli), dict(c["user"]), dict(DEFAULTS))
+            with quiet():
+                rc = run_impl_all(lambda: _client_attrs(og.init_client(fresh)))
+                rp = run_impl_all(og.get_passwd, fresh)
+            parts.append((case, maps, rc, rp))
+
+        # ---- W2: argument vectors through ofxget.main()
+        captured = {}
+        real_merge = og.merge_config
+
+        def merge_config(ns, cfg):
+            m = real_merge(ns, cfg)
+            captured["maps"] = [dict(x) for x in m.maps]
+            return m
+
+        og.merge_config = merge_config
+        saved_argv = _sys.argv
+        try:
+            for i in range(ctx.budget(60, 1400)):
+                kind = "stmt" if rng.random() < 0.6 else "stmtend"
+                argv = ["ofxget", kind, "--url", "https://bank.example/ofx", "-n"]
+                # what the user typed, for the oracle (independent of argparse and merge_config)
+                typed = {ty: None for ty in ALLTYPES}
+                typed.update({"dtstart": None, "dtend": None, "dtasof": None, "inctran": True, "incbal": True,
+                              "incpos": True, "incoo": False, "bankid": None, "brokerid": None})
+                if rng.random() < 0.7:
+                    argv += ["-u", rng.choice(["bob", "al ice", "u&1"])]
+                flagsets = [("-C", 3, "checking"), ("-S", 2, "savings"), ("-M", 1, "moneymrkt"), ("-L", 1, "creditline"),
+                            ("-c", 2, "creditcard")] + ([("-i", 2, "investment")] if kind == "stmt" else [])
+                for fl, mx, ty in flagsets:
+                    for _ in range(rng.randrange(0, mx + 1) if rng.random() < 0.6 else 0):
+                        v = rng.choice(["1", "22", "333", "A-1", "9" * 22, "0012", "a<b", "x&y"])
+                        argv += [fl, v]
+                        typed[ty] = (typed[ty] or []) + [v]
+                for fl, d in (("-s", "dtstart"), ("-e", "dtend")) + ((("-a", "dtasof"),) if kind == "stmt" else ()):
+                    r1 = rng.random()
+                    if r1 < 0.5:
+                        v = rng.choice(["20200101", "20191231235959", "20200229120000.123",
+                                        "20200101000000.000[-5:EST]", "19991231", "20200615120000[+5.30]"])
+                        argv += [fl, v]
+                        typed[d] = v
+                    elif r1 < 0.56:
+                        v = rng.choice(["2020", "yesterday", "20201301", "20200230"])
+                        argv += [fl, v]
+                        typed[d] = v
+                for fl, key, val in (("--pretty", None, None), ("--nonewfileuid", None, None)) + (
+                        (("--no-transactions", "inctran", False), ("--no-balances", "incbal", False),
+                         ("--no-positions", "incpos", False), ("--open-orders", "incoo", True)) if kind == "stmt" else ()):
+                    if rng.random() < 0.25:
+                        argv.append(fl)
+                        if key:
+                            typed[key] = val
+                if rng.random() < 0.4:
+                    v = rng.choice([102, 103, 151, 160, 200, 203, 220])
+                    argv += ["--version", str(v)]
+                    if v < 200 and rng.random() < 0.5:
+                        argv.append("--unclosedelements")
+                elif rng.random() < 0.05:
+                    argv.append("--unclosedelements")
+                if rng.random() < 0.8:
+                    typed["bankid"] = rng.choice(["111000614", "1"])
+                    argv += ["--bankid", typed["bankid"]]
+                if kind == "stmt" and rng.random() < 0.8:
+                    typed["brokerid"] = rng.choice(["broker.example", "B"])
+                    argv += ["--brokerid", typed["brokerid"]]
+                if rng.random() < 0.3:
+                    argv += ["--org", "ORG", "--fid", "FID"]
+                if rng.random() < 0.2:
+                    argv += ["--clientuid", "CUID-1"]
+                if rng.random() < 0.2:
+                    argv += ["--appid", "MONEY", "--appver", "1900"]
+                user = {}
+                if rng.random() < 0.5:
+                    user = {"checking": "u1, u2", "bankid": "999", "user": "cfguser"}
+                    argv.append("srv")
+                    if typed["checking"] is None:
+                        typed["checking"] = ["u1", "u2"]
+                    if typed["bankid"] is None:
+                        typed["bankid"] = "999"
+                env.oh_table = {}
+                env.fresh_process([], [["srv", [[k, v] for k, v in user.items()]]] if user else [], "UNUSED")
+                captured.clear()
+                rec = Rec()
+                patched(rec, None)
+                _sys.argv = argv
+                with quiet() as out:
+                    r = run_impl_all(og.main)
+                if "maps" not in captured:
+                    ctx.stat("wire:argv:not-merged")
+                    continue
+                maps = captured["maps"]
+                try:
+                    [pmap(m) for m in maps]
+                except TypeError:
+                    ctx.stat("wire:argv:foreign-value")
+                    continue
+                case = {"kind": kind, "label": "wire-argv", "argv": argv[1:], "user": user, "typed": typed}
+                jobs.append((case, kind, maps, Atom("none"), outcome(r, rec, out.getvalue(), True)))
+        finally:
+            _sys.argv = saved_argv
+            og.merge_config = real_merge
+    finally:
+        Real.dtclient = saved_dtclient
+        _getpass.getpass = saved_getpass
+        Real.uuid = "TRNUID"
+
+    lines = [line("wire.stmt", Atom(kind), [pmap(m) for m in maps], acct, WIRE_TYPED, WIRE_PREFIX, _enc_dt(WIRE_DTCLIENT))
+             for (_, kind, maps, acct, _) in jobs]
+    for (case, kind, maps, acct, impl), rep in zip(jobs, ctx.model.ask(lines)):
+        if rep.kind == "ok":
+            mtext = dstr(rep.vals[0]).encode("utf-8")
+            model = ["ok", mtext]
+        elif rep.kind == "err":
+            model = ["err", rep.err]
+        else:
+            model = ["bad", rep.raw]
+        label = case["label"]
+        ctx.stat(f"wire:{label}:{impl[0]}" + (":" + impl[1] if impl[0] == "err" else ""))
+        if impl[0] == "ok" and model[0] == "ok":
+            if impl[1] == model[1]:
+                ctx.stat("wire:text-identical")
+                ci = cm = run_impl_all(wire_canon, impl[1])
+            else:
+                ci, cm = run_impl_all(wire_canon, impl[1]), run_impl_all(wire_canon, model[1])
+            ctx.compare("wire.stmt", case, ["ok", list(ci)], ["ok", list(cm)], nontrivial=True)
+            if ci[0] != "ok":
+                ctx.violate("request_unparsable", case, f"the request text does not parse back: {ci[1]}")
+            elif not collections.ChainMap(*maps).get("all"):
+                # oracle on the implementation's own text: one wrapper per configured account, of the right kind, with
+                # the configured bank / broker id and the dates the command line denotes, in order; nothing else.
+                # For an argument vector the expectation is computed from what was typed, not from the parsed mapping.
+                eff = case["typed"] if "typed" in case else collections.ChainMap(*maps)
+                accts = {ty: list(eff[ty] or []) for ty in ALLTYPES}
+                if kind == "stmtend":
+                    accts["investment"] = []
+                o = {d: (dconv(eff[d])[1] if eff[d] else None) for d in ("dtstart", "dtend", "dtasof")}
+                for fl in ("inctran", "incoo", "incpos", "incbal"):
+                    o[fl] = eff[fl]
+                want = expected_wire(kind, accts, o, eff["bankid"] or None, eff["brokerid"] or None)
+                if ci[1]["wrappers"] != want:
+                    ctx.violate("wire_requests_wrong", case,
+                                f"the request printed has {ci[1]['wrappers']}, the command line asks for {want}")
+        else:
+            ctx.compare("wire.stmt", case, impl if impl[0] == "err" else ["ok"], model if model[0] != "ok" else ["ok"],
+                        nontrivial=False)
+
+    # ---- the two conversions on their own: init_client(args) -> OFXClient attributes, get_passwd(args)
+    plines = []
+    for (case, maps, rc, rp) in parts:
+        plines.append(line("wire.cfg", [pmap(m) for m in maps]))
+        plines.append(line("wire.passwd", [pmap(m) for m in maps], WIRE_TYPED))
+    reps = ctx.model.ask(plines)
+    for i, (case, maps, rc, rp) in enumerate(parts):
+        rep_c, rep_p = reps[2 * i], reps[2 * i + 1]
+        if rep_c.kind == "ok":
+            v = rep_c.vals[0]
+            o_ = lambda a: None if a == "none" else dstr(a[1])
+            mc = ["ok", [dstr(v[1]), dstr(v[2]), o_(v[3]), o_(v[4]), o_(v[5]), int(v[6]), dstr(v[7]), dstr(v[8]), dstr(v[9]),
+                         v[10] == "T", v[11] == "T", o_(v[12]), o_(v[13])]]
+        else:
+            mc = ["err", rep_c.err] if rep_c.kind == "err" else ["bad", rep_c.raw]
+        ctx.compare("wire.cfg", case, list(rc), mc, nontrivial=(rc[0] == "ok"))
+        mp = ["ok", dstr(rep_p.vals[0])] if rep_p.kind == "ok" else (["err", rep_p.err] if rep_p.kind == "err" else ["bad", rep_p.raw])
+        ctx.compare("wire.passwd", case, list(rp), mp, nontrivial=False)
+
+    # ---- convert_datetime's D on its own: DateTime().convert(text or None)
+    from ofxtools.Types import DateTime as _DT
+    texts = ["", "20200101", "20191231235959", "20200229120000.123", "20200101000000.000[-5:EST]", "19991231",
+             "20200615120000[+5.30]", "2020", "yesterday", "20201301", "2020-01-01", "20200230", "20200101120000[0:GMT]",
+             "20200101120000.5", "09990101", "20200101000000[-12]", "20200101000000[+14.59:X]", "20200101000000[-13]"]
+    reps = ctx.model.ask([line("wire.date", opt(t or None)) for t in texts])
+    for t, rep in zip(texts, reps):
+        r = run_impl_all(_DT().convert, t or None)
+        if r[0] == "ok":
+            d = r[1]
+            impl = ["ok", None if d is None else [d.year, d.month, d.day, d.hour, d.minute, d.second, d.microsecond,
+                                                 int(d.utcoffset().total_seconds() * 10 ** 6), d.tzname()]]
+        else:
+            impl = list(r)
+        if rep.kind == "ok":
+            v = rep.vals[0]
+            if v == "none":
+                model = ["ok", None]
+            else:
+                x = v[1]
+                tz = x[8]
+                model = ["ok", [int(a) for a in x[1:8]] + ([None, None] if tz == "none" else
+                                                         [int(tz[1][1]), None if tz[1][2] == "none" else dstr(tz[1][2][1])])]
+        else:
+            model = ["err", rep.err] if rep.kind == "err" else ["bad", rep.raw]
+        ctx.compare("wire.date", {"text": t}, impl, model, nontrivial=(impl[0] == "ok" and impl[1] is not None))
